@@ -57,19 +57,19 @@ pub fn single_op_space(tier: Tier, var: u64) -> Vec<Single> {
         for (op, kind) in &unary {
             out.push(Single {
                 family: "unary",
-                prog: Program { leaves: vec![leaf(d, 0, *kind, var)], nodes: vec![PNode { op: op.clone(), args: vec![0] }], retrack: Vec::new() },
+                prog: Program { leaves: vec![leaf(d, 0, *kind, var)], nodes: vec![PNode { op: op.clone(), args: vec![0] }], retrack: Vec::new(), frozen: Vec::new(), dropped: Vec::new() },
             });
         }
         for k in 1..=d.len() {
             out.push(Single {
                 family: "sum",
-                prog: Program { leaves: vec![leaf(d, 0, 1, var)], nodes: vec![PNode { op: OpK::Sum(k), args: vec![0] }], retrack: Vec::new() },
+                prog: Program { leaves: vec![leaf(d, 0, 1, var)], nodes: vec![PNode { op: OpK::Sum(k), args: vec![0] }], retrack: Vec::new(), frozen: Vec::new(), dropped: Vec::new() },
             });
         }
         for target in shapes_with_numel(numel(d), 4) {
             out.push(Single {
                 family: "reshape",
-                prog: Program { leaves: vec![leaf(d, 0, 1, var)], nodes: vec![PNode { op: OpK::Reshape(target), args: vec![0] }], retrack: Vec::new() },
+                prog: Program { leaves: vec![leaf(d, 0, 1, var)], nodes: vec![PNode { op: OpK::Reshape(target), args: vec![0] }], retrack: Vec::new(), frozen: Vec::new(), dropped: Vec::new() },
             });
         }
     }
@@ -87,6 +87,8 @@ pub fn single_op_space(tier: Tier, var: u64) -> Vec<Single> {
                         leaves: vec![leaf(a, 0, 0, var), leaf(b, 1, 0, var)],
                         nodes: vec![PNode { op: op.clone(), args: vec![0, 1] }],
                         retrack: Vec::new(),
+ frozen: Vec::new(),
+ dropped: Vec::new(),
                     },
                 });
             }
@@ -97,13 +99,13 @@ pub fn single_op_space(tier: Tier, var: u64) -> Vec<Single> {
         for (op, kind) in &unary {
             out.push(Single {
                 family: "unary-long",
-                prog: Program { leaves: vec![leaf(&d, 0, *kind, var)], nodes: vec![PNode { op: op.clone(), args: vec![0] }], retrack: Vec::new() },
+                prog: Program { leaves: vec![leaf(&d, 0, *kind, var)], nodes: vec![PNode { op: op.clone(), args: vec![0] }], retrack: Vec::new(), frozen: Vec::new(), dropped: Vec::new() },
             });
         }
         for k in 1..=d.len() {
             out.push(Single {
                 family: "sum-long",
-                prog: Program { leaves: vec![leaf(&d, 0, 1, var)], nodes: vec![PNode { op: OpK::Sum(k), args: vec![0] }], retrack: Vec::new() },
+                prog: Program { leaves: vec![leaf(&d, 0, 1, var)], nodes: vec![PNode { op: OpK::Sum(k), args: vec![0] }], retrack: Vec::new(), frozen: Vec::new(), dropped: Vec::new() },
             });
         }
         let last = vec![*d.last().unwrap()];
@@ -111,7 +113,7 @@ pub fn single_op_space(tier: Tier, var: u64) -> Vec<Single> {
             for (x, y) in [(d.clone(), last.clone()), (last.clone(), d.clone()), (d.clone(), d.clone())] {
                 out.push(Single {
                     family: "binary-long",
-                    prog: Program { leaves: vec![leaf(&x, 0, 0, var), leaf(&y, 1, 0, var)], nodes: vec![PNode { op: op.clone(), args: vec![0, 1] }], retrack: Vec::new() },
+                    prog: Program { leaves: vec![leaf(&x, 0, 0, var), leaf(&y, 1, 0, var)], nodes: vec![PNode { op: op.clone(), args: vec![0, 1] }], retrack: Vec::new(), frozen: Vec::new(), dropped: Vec::new() },
                 });
             }
         }
@@ -128,6 +130,8 @@ pub fn single_op_space(tier: Tier, var: u64) -> Vec<Single> {
                         leaves: vec![leaf(&am, 0, 0, var), leaf(&[vec![2], bm.clone()].concat(), 1, 0, var), leaf(&[cols], 2, 0, var)],
                         nodes: vec![PNode { op: OpK::Matmul { ta, tb, bias: true }, args: vec![0, 1, 2] }],
                         retrack: Vec::new(),
+ frozen: Vec::new(),
+ dropped: Vec::new(),
                     },
                 });
             }
@@ -148,7 +152,7 @@ pub fn single_op_space(tier: Tier, var: u64) -> Vec<Single> {
         }
         out.push(Single {
             family: "matmul",
-            prog: Program { leaves, nodes: vec![PNode { op: OpK::Matmul { ta: c.ta, tb: c.tb, bias: c.c.is_some() }, args }], retrack: Vec::new() },
+            prog: Program { leaves, nodes: vec![PNode { op: OpK::Matmul { ta: c.ta, tb: c.tb, bias: c.c.is_some() }, args }], retrack: Vec::new(), frozen: Vec::new(), dropped: Vec::new() },
         });
     }
     // conv
@@ -163,6 +167,8 @@ pub fn single_op_space(tier: Tier, var: u64) -> Vec<Single> {
                 leaves: vec![leaf(&c.image, 0, 0, var), leaf(&c.filters, 1, 0, var)],
                 nodes: vec![PNode { op: OpK::Conv { sr: c.sr, sc: c.sc }, args: vec![0, 1] }],
                 retrack: Vec::new(),
+ frozen: Vec::new(),
+ dropped: Vec::new(),
             },
         });
     }
